@@ -83,6 +83,22 @@ type harness struct {
 	decoys      []*decoy
 	allDecoys   []*decoy
 	foreign     *ecdsa.PrivateKey
+	inFatal     bool
+	agreed      map[string]bool
+	nsMethods   map[string]int
+}
+
+// fatalf reports a broken harness; whatever was captured up to this point is still scanned first (a violation outranks "broken").
+func (h *harness) fatalf(format string, args ...any) {
+	if len(h.nodes) > 0 && !h.inFatal {
+		h.inFatal = true
+		func() {
+			defer func() { _ = recover() }()
+			h.scan("on-fatal")
+			h.agreement()
+		}()
+	}
+	h.r.Fatalf(format, args...)
 }
 
 func (h *harness) emit(channel, op string, data []byte) {
@@ -242,14 +258,14 @@ func (h *harness) finalScan() {
 func (h *harness) call(nr *nodeRef, method, path string, body any) node.Resp {
 	resp, err := node.Do(method, nr.rec.URL+path, body, nil)
 	if err != nil {
-		h.r.Fatalf("%s %s: %v", method, path, err)
+		h.fatalf("%s %s: %v", method, path, err)
 	}
 	return resp
 }
 
 func (h *harness) must(resp node.Resp, what string) node.Resp {
 	if resp.Status/100 != 2 {
-		h.r.Fatalf("%s: %s", what, resp)
+		h.fatalf("%s: %s", what, resp)
 	}
 	return resp
 }
@@ -257,7 +273,7 @@ func (h *harness) must(resp node.Resp, what string) node.Resp {
 func (h *harness) public(method, rawurl string, body any, hdr map[string]string) node.Resp {
 	resp, err := node.Do(method, rawurl, body, hdr)
 	if err != nil {
-		h.r.Fatalf("%s %s: %v", method, rawurl, err)
+		h.fatalf("%s %s: %v", method, rawurl, err)
 	}
 	return resp
 }
@@ -363,7 +379,7 @@ func TestCheck(t *testing.T) {
 		"non-trivial when the call ran between two snapshots of the tree outside the key directory; (c) agreement checks: one per signed artefact (requested through the crypto API, or harvested from any captured stream), non-trivial when it verified with the key of its kid and was tried against at least one other key. " +
 		"Canary patterns: raw, hex (lower/upper/trimmed/colon), Go and JSON byte lists, base64url/base64 (padded, unpadded, and the two shifted alignments inside a larger base64 container), decimal, PEM body lines and DER chunk of every secret component (EC D; RSA D, primes, CRT values; Ed25519 seed); " +
 		fmt.Sprintf("patterns shorter than %d bytes are skipped to avoid coincidences. Streams are searched as emitted, with whitespace/escaped line breaks removed, and after decoding every base64url/base64/hex run (nested, depth 4).", minPatternLen))
-	r.Require(r.Pick(400, 3000), r.Pick(150, 400))
+	r.Require(r.Pick(2500, 10000), r.Pick(1500, 6000))
 	r.Assume("the quantifier 'all call sites that can reach raw key bytes' is a statement about program text; this check covers the output channels the workload drives (listed in operations_exercised) and says nothing about code the workload does not reach")
 	r.Assume("fs key back end only (vault / azure / external back ends are not exercised); keys are EC P-256 as the node creates them, plus one RSA-2048 and one Ed25519 key imported into the key directory and linked through KeyStore.Link")
 	r.Assume("reads of files outside the key directory are observed through inotify on decoy key files and through the key that a successful call used; databases the node legitimately writes to (sqlite.db*, *.db, events/) are compared by existence only")
@@ -406,6 +422,7 @@ func TestCheck(t *testing.T) {
 	h.scan("subjects-credentials")
 	h.phaseCryptoAPI(n1)
 	h.scan("crypto-api")
+	h.agreement() // what was signed so far (again at the end, over everything)
 	h.phaseIAM(n1)
 	h.scan("iam-flows")
 	h.phaseGoAPI(n1)
@@ -446,6 +463,7 @@ func TestCheck(t *testing.T) {
 	r.Extra("patterns_total", len(h.can.pats))
 	r.Extra("patterns_skipped_too_short", h.can.skipped)
 	r.Extra("jwk_header_outcomes", h.jwkOutcomes)
+	r.Extra("namespace_calls_per_method", h.nsMethods)
 	r.Extra("session_keys_covered", h.sessionKeys)
 	r.Extra("verbosity", verbosity)
 }
